@@ -250,12 +250,13 @@ def run(prog: Program, res: Result, tier: str) -> None:
     if len(ctor) == 1:
         from ..normalform import canon as _canon3
         nb = [k.value for k in ctor[0].keywords if k.arg == "nbits"]
-        newh = [c for c in calls_in_body(prep.node) if (dotted(c.func) or "").endswith("new_header") and c.args and isinstance(c.args[0], ast.Name)]
+        newh = [c for c in calls_in_body(prep.node) if (dotted(c.func) or "").endswith("new_header") and c.args]
         if nb and len(newh) == 1:
-            dname = newh[0].args[0].id
+            darg = newh[0].args[0]      # a name, or the mapping written in place
             w_txt = _canon3(fl.expand(nb[0], fl.cfg.node_for(ctor[0])))            # the depth the writer packs with
             # the depth the derived header declares: the 'nbits' entry of the mapping given to new_header, on every path
-            h_txt = _canon3(fl.expand(ast.Subscript(value=ast.Name(id=dname, ctx=ast.Load()), slice=ast.Constant("nbits"), ctx=ast.Load()),
+            import copy as _copy3
+            h_txt = _canon3(fl.expand(ast.Subscript(value=_copy3.deepcopy(darg), slice=ast.Constant("nbits"), ctx=ast.Load()),
                                       fl.cfg.node_for(newh[0])))
             enc = [c for c in calls_in_body(prep.node) if (dotted(c.func) or "").endswith("encode_header") and c.args]
             encoded = len(enc) == 1 and "new_header(" in _canon3(fl.expand(enc[0].args[0], fl.cfg.node_for(enc[0])))
